@@ -62,8 +62,8 @@ ASSUMPTIONS = ["a call is a hang when it runs > 3 s or the heap exceeds 768 MiB 
                "fields by reflection' is transcribed there and trusted; fmt's recovery of a panicking String() is not modelled (the model panics where "
                "the method would) and goexec calls every nested String() directly as well",
                "cli/parsefile.go: the binary is built from a copy of the tree and run with a 5 s timeout and a 4 GiB address-space limit; a panic is "
-               "recognised from stderr ('panic:' / 'goroutine '); its explicit panic(err) on a ReadPMT error is a pending finding (notes/findings/C05-cli.md) "
-               "printed as KNOWN-FINDING"]
+               "recognised from stderr ('panic:' / 'goroutine '); its explicit panic(err) on a ReadPMT error was repaired in /repo commit 2253a95 (notes/findings/C05-cli.md); "
+               "any panic or hang of the tool is a violation"]
 PARTIAL = ("proof covers panic-freedom / termination of the modelled entry points and of the printers' panic-relevant operations "
            "(Properties/C05*.v), and size bounds of the results of six decoder models (Properties/C05Bound.v: ProgramMap, NewPMT, NewSCTE35, "
            "ReadEncoderBoundaryPoint, accumulator, state tracker; not NewPESHeader, FilterPMTPacketsToPids, the stream readers); time bounds of the real code and aliasing are runtime observations made by goexec only")
